@@ -1,9 +1,12 @@
-"""C10 -- CNAME chains are returned whole, in order, and loops end safely (local part).
+"""C10 -- CNAME chains are returned whole, in order, and loops end safely.
 
-At this stage the stream and the theorems cover chains whose links come from zones
-and the cache (local resolution / authoritative-only mode).  Chains that continue
-upstream (recursive_chain_ok, forwarding_chain_ok, filter_chain_ok) are covered by the
-resolver subsystem's streams when they land.
+Two streams.  The `local` stream (DRIVER; cases from vlib/localgen.py) covers chains whose
+links come from zones and the cache (local resolution / authoritative-only mode).  The
+network-mode stream (hook `extra`; cases from vlib/netgen.py, run on the `resolver` drivers)
+covers chains that continue upstream in recursive and forwarding mode: links spread over
+local zones, the cache and upstream servers, upstream cycles, chains beyond the limit of 32.
+THEOREMS lists the proved statements; the theorems about the network modes
+(recursive_chain_ok, forwarding_chain_ok) are added to Properties/C10.v separately.
 """
 from . import localgen as g
 from .tok import CNAME, ANY
@@ -14,12 +17,33 @@ COQ_TARGETS = ["Properties/C10.vo"]
 THEOREMS = ["C10_local_chain_ok", "C10_authoritative_only_chain_ok", "C10_referral_only_direct_local",
             "C10_zones_typed_answers_ok", "C10_recursion_shape", "C10_stack_never_repeats", "C10_fuel_suffices",
             "C10_loops_end_local", "C10_loops_end_top_local"]
-RULE = ("case = zones + cache contents + questions, a third of them alias graphs (chains of 0..40 links spread over an "
+RULE = ("local stream: case = zones + cache contents + questions, a third of them alias graphs (chains of 0..40 links spread over an "
         "authoritative zone, a non-authoritative zone and the cache; ending in data, nothing, a cycle or a self-loop); "
         "non-trivial = distinct case line in which at least one question of a type other than CNAME/ANY is answered with "
-        "at least one CNAME record according to the model")
+        "at least one CNAME record according to the model.  Network-mode stream (recursive in all four protocol modes, and "
+        "forwarding; counted in `extra`): case = a generated universe of upstream servers x local zones x initial cache x 1..12 "
+        "questions on one cache, with alias chains crossing local zone -> cache -> upstream, cached chains of 1..3 links ending at a "
+        "name only upstream knows, upstream cycles (through the question name, not through it, self-loops, across two zones, entered "
+        "through a cached or local alias), chains of 29..40 links inside one upstream zone (one reply), alternating between two "
+        "upstream zones (one resolution step per link), inside a local zone, and local or cached links followed by upstream links, a "
+        "local chain of 1100 links; same non-triviality rule")
 ASSUMPTIONS = [
-    "local part only: links from zones and cache; upstream links are the resolver subsystem's",
+    "all three modes are exercised by streams; the theorems listed cover chains whose links come from zones and the cache (the "
+    "network-mode theorems recursive_chain_ok / forwarding_chain_ok are being added to Properties/C10.v separately and appear in "
+    "THEOREMS when proved)",
+    "network-mode oracle, on the implementation's output alone: every question completes (the driver survives: no hang, no stack "
+    "overflow) within 60 s of virtual time; every successful reply holds no record twice and, for a question type other than "
+    "CNAME/ANY, satisfies chain_ok -- in recursive mode always; in forwarding mode when every answer the forwarder gave during "
+    "that resolution is itself repetition-free and in chain order (D6: what the forwarder says is passed on as it is).  The "
+    "forwarder is modelled as one server holding every zone of the universe (Universe.serve): its answers are in chain order, "
+    "except that for an alias cycle it repeats the cycle up to 64 records -- those replies are the ones not judged (counted in "
+    "the evidence)",
+    "interpretation: 'chains longer than the recursion limit end in a partial chain or an error' is read as a bound on the work, "
+    "not as a ban on complete answers: in the network modes each stage of the resolution follows up to 32 local links and hands the "
+    "rest to the next stage (one question-stack slot each), so a 40-link chain inside a local zone is answered whole and in order "
+    "(authoritative-only mode: partial); the bound is about 32 x 32 links (corpus: 1100 links end in an error)",
+    "network-mode stream: what an upstream server says is Universe.serve (tabulated per case); no transport faults (C08's); sorted "
+    "candidate order (H5); fixed clock",
     "C10_local_chain_ok takes two facts about the sources as hypotheses: (zones) a zone answer / CNAME result is owned by "
     "the query name with the asked type / type CNAME and target = rdata -- true of zones built by insertion, to be "
     "discharged from the C02 development; (cache) the read function returns only RRs of the asked name whose type "
@@ -30,7 +54,10 @@ ASSUMPTIONS = [
     "Context::at_recursion_limit: capacity = RECURSION_LIMIT exactly (see C01)",
 ]
 TRUSTED = ["oracle restricted (soundness): replies that are direct referrals (local result Delegation, F12 of C09) are not "
-           "checked against chain_ok"]
+           "checked against chain_ok",
+           "network-mode stream: hooks H3 (in-memory UdpSocket/TcpStream) and H5 (sorted candidate order) in /repo under "
+           "cfg(resolved_verif); the mock handler of harness/src/resolver.rs; the reference decoder vlib/wireref.py (used to "
+           "judge the forwarder's own answers)"]
 
 
 def generate(rng, tier):
@@ -112,12 +139,9 @@ def net_oracle(case, impl, stats=None):
             if r.kind not in ("A", "N"):
                 continue
             if fwd is not None:
-                said = netgen.forwarder_answers(c)
                 ordered = True
                 for e in r.log:
-                    if e.qname is None:
-                        continue
-                    ans = said.get(tok.question(e.qname, e.qtype, e.qclass))
+                    ans = netgen.reply_answers(c, e)
                     if ans is not None and (repeated(ans) or rg.chain_ok(e.qname, e.qtype, ans)):
                         ordered = False
                 if not ordered:
